@@ -522,8 +522,8 @@ def oracle_lib_run(out):
     """dict-per-thread oracle on the log of harness/c10_tls_lib.c run; returns (message, stats)"""
     st = {"ops": 0, "sets": 0, "gets": 0, "threads": 0, "migrated_threads": 0, "keys": 0, "nonnull_gets": 0}
     live = []
-    if "done" not in out.split("\n")[-2:] and not out.rstrip().endswith("done"):
-        return "library run did not complete: " + out[-200:], st
+    if "done" not in out.split("\n"):
+        return "library run did not complete: " + out[-200:].strip(), st
     for line in out.split("\n"):
         w = line.split()
         if not w:
@@ -699,14 +699,22 @@ def run(ctx):
     # whole library
     lib_fail, lib_stats, lib_runs = [], [], 0
     rc, out = run_lib(ctx, libexe, ["stale"])
-    m = re.search(r"stale create=0 k=(-?\d+) before=777 delete=0 create2=0 k2=(-?\d+) got=(\d+)", out)
+    m = re.search(r"stale create=(-?\d+) k=(-?\d+) before=(\d+) delete=(-?\d+) create2=(-?\d+) k2=(-?\d+) got=(\d+)", out)
     stale_lib = None
-    if not m or "done" not in out:
-        lib_fail.append(("stale", out[-300:], "stale-value replay through the public API did not complete"))
+    if not m or "done" not in out.split("\n"):
+        lib_fail.append(("stale", out[-300:], "create/set/delete/create/get through the public API did not complete (exit code %d): %s" % (rc, out[-150:].strip())))
     else:
-        stale_lib = (int(m.group(1)) == int(m.group(2)) and int(m.group(3)) == 777)
-        if int(m.group(3)) not in (0, 777) or (int(m.group(3)) == 777 and int(m.group(1)) != int(m.group(2))):
-            lib_fail.append(("stale", out[-300:], "getspecific under a fresh key returned %s" % m.group(3)))
+        c1, k1, before, d1, c2, k2, got = map(int, m.groups())
+        if c1 != 0 or c2 != 0 or not (0 <= k1 < NK) or not (0 <= k2 < NK):
+            lib_fail.append(("stale", out[-300:], "myth_key_create on an almost empty key table returned %d / %d (keys %d, %d)" % (c1, c2, k1, k2)))
+        elif before != 777:
+            lib_fail.append(("stale", out[-300:], "getspecific right after setspecific(k, 777) returned %d" % before))
+        elif d1 != 0:
+            lib_fail.append(("stale", out[-300:], "myth_key_delete of a live key returned %d" % d1))
+        else:
+            stale_lib = (k1 == k2 and got == 777)
+            if got != 0 and not stale_lib:
+                lib_fail.append(("stale", out[-300:], "getspecific under a fresh key returned %d" % got))
         g = re.search(r"guarded k3=(-?\d+) delete=0 k4=(-?\d+) got=(\d+)", out)
         if not g or int(g.group(3)) != 0:
             lib_fail.append(("stale", out[-300:], "a key deleted after its value was reset to NULL reads non-NULL after re-creation"))
